@@ -1,4 +1,4 @@
-REPO_FIX_COMMITS = ['2d7a94d', '41c6b34', '15c99e7', '0752c0c', '7f84765', 'af57352', 'e33a24d', '5bdc6b3', '08843a4', '3e03bb0', 'd823a64', '3ba8645', '9eda77c', 'f97803c', '7e803d3', '0853a40', '76123e6', '212f09f', '09399f0', '70a9198', '4fa07f3', '3f55be9', '55bbf09', '507f6b1', '5bd0742', '0f36894']
+REPO_FIX_COMMITS = ['2d7a94d', '41c6b34', '15c99e7', '0752c0c', '7f84765', 'af57352', 'e33a24d', '5bdc6b3', '08843a4', '3e03bb0', 'd823a64', '3ba8645', '9eda77c', 'f97803c', '7e803d3', '0853a40', '76123e6', '212f09f', '09399f0', '70a9198', '4fa07f3', '3f55be9', '55bbf09', '507f6b1', '5bd0742', '0f36894', 'eecaabf', '1591c67']
 NOT_APPLICABLE = {}
 CHECKS = {
  'C18': dict(
@@ -177,4 +177,15 @@ CHECKS = {
   note='Independent rays come from the library tracer on a twin (C02 decides the tracer); centroid clauses judged when the '
        'reference wavelength is unambiguous; distortion judged when the paraxial scale is well conditioned.',
   design='3/C12'),
+ 'C14': dict(
+  technique='Hypothesis-generated optimisation problems (lens x operand set x variable set x optimiser front end) run as '
+            'the history optimise -> undo -> optimise, with a twin-lens differential oracle for the merit function and '
+            'post-conditions on the returned result',
+  level='For generated problems the merit function is recomputed from operand values on a twin lens, variables are checked '
+        'as faithful handles (round trip, bounds in units of the value), and after every optimiser run the lens state is '
+        'compared with result.x / result.fun, monotonicity, bounds and pickup relations; undo must restore the serialised '
+        'lens. Counter-example search with small iteration budgets.',
+  note='Worker-pool schedules of differential evolution are not enumerated (outcomes compared for 1, 2, all workers in the '
+       'thorough tier); scipy ABNORMAL terminations are not judged on result.fun.',
+  design='3/C14'),
 }
